@@ -3,6 +3,10 @@ package props
 import (
 	"bytes"
 	"encoding/json"
+	"fmt"
+
+	"github.com/foxglove/mcap/go/mcap"
+	"verifharness/mc"
 )
 
 // bytesRS is a plain in-memory read-seeker (a distinct type from bytes.Reader so that nothing in the
@@ -27,3 +31,31 @@ func (b *bytesRS) Seek(o int64, w int) (int64, error) {
 func jsonMarshal(v any) ([]byte, error) { return json.Marshal(v) }
 
 func bytesReader(b []byte) *bytesRS { return &bytesRS{data: b} }
+
+
+// readOn drains Messages(opts...) on an existing Reader.
+func readOn(rd *mcap.Reader, opts ...mcap.ReadOpt) (res mc.IterResult) {
+	defer func() {
+		if x := recover(); x != nil {
+			res.Panic = fmt.Sprint(x)
+		}
+	}()
+	it, err := rd.Messages(opts...)
+	mc.ScribbleTopics()
+	if err != nil {
+		res.OpenErr = err
+		return res
+	}
+	for {
+		s, c, m, err := it.NextInto(nil)
+		if err != nil {
+			res.Err = err
+			return res
+		}
+		res.Items = append(res.Items, mc.Triple{S: mc.FromSchema(s), C: mc.FromChannel(c), M: mc.FromMessage(m)})
+		if len(res.Items) > 1<<20 {
+			res.Err = fmt.Errorf("harness: more than 2^20 items")
+			return res
+		}
+	}
+}
